@@ -95,7 +95,19 @@ class Session:
     def judge_event(self, ev, delivered=None, ctx=None):
         """Judge one ADD event with the transition relation + state facts."""
         if ev.get('post_xml') is None:
+            # the tree the add left behind cannot be written out at all (str(ro) would fail the same way)
             self.hist['unserialisable-post'] += 1
+            self.evaluations += 1
+            d = spec.Dev('C14', 'state-cannot-be-serialised', {'msg_cls': ev.get('msg_cls'), 'outcome': ev.get('outcome')})
+            if self.prop == 'C14':
+                class _V:
+                    msg_kind = ev.get('msg_cls')
+                    status = 'unserialisable'
+                    sig = None
+                self.violation(d, None, _V(), ctx, {'type': 'transition', 'pre_xml': ev.get('pre_xml'),
+                                                      'msg_xml': ev.get('msg_xml'), 'context': ctx})
+            else:
+                self.other['C14:state-cannot-be-serialised'] += 1
             return None
         v = spec.judge(ev['pre_xml'], ev['msg_xml'], ev['post_xml'], ev['outcome'],
                        ev.get('warns', ()), tuple(ev.get('exc_mro', ())))
